@@ -73,7 +73,8 @@ fn fixture(args: &[String]) -> Fixture {
         lib_api::Res::Ok(o) => o.pk,
         _ => panic!("keygen failed"),
     };
-    let succ = m.make_blob(4, &params, &seed);
+    // the successor the callback must receive (the wiped image when counter 3 is the key's last leaf)
+    let succ = m.successor(&m.parse_blob(&blob).expect("fixture blob"));
     Fixture { hid, params, blob, pk, msg, succ }
 }
 
